@@ -1542,6 +1542,127 @@ fn scout(seed: u64, point: Point, ea: u64) -> Result<(Verdict, bool, usize, Vec<
     Ok((v, blocked, values.len(), restoring))
 }
 
+/// Runs thread `tid` (marker signal `end_sig`) on until it is about to execute
+/// the `k`-th synchronising instruction from here; breakpoints are planted
+/// and removed through `via`, the other, stopped worker
+fn run_to_kth(c: &Child, tid: i32, via: i32, end_sig: i32, k: usize) -> Result<BState, String> {
+    let base = load_base(c.pid).ok_or("no load base")?;
+    let mut bps = std::collections::HashMap::new();
+    for v in sync_sites() {
+        let a = base + v;
+        bps.insert(a, set_bp(via, a));
+    }
+    let clear_all = |except: Option<u64>| {
+        for (a, o) in &bps {
+            if Some(*a) != except {
+                clear_bp(via, *a, *o);
+            }
+        }
+    };
+    let mut hits = 0usize;
+    let mut futex_polls = 0;
+    let t0 = std::time::Instant::now();
+    cont(tid, 0);
+    loop {
+        match wait_tid(tid, false) {
+            Some(Stop::Sig(libc::SIGTRAP)) => {
+                let site = get_rip(tid) - 1;
+                let Some(orig) = bps.get(&site) else {
+                    clear_all(None);
+                    return Err(format!("thread {tid}: SIGTRAP at {site:#x}, not a breakpoint"));
+                };
+                clear_bp(via, site, *orig);
+                set_rip(tid, site);
+                hits += 1;
+                if hits >= k {
+                    clear_all(Some(site));
+                    return Ok(BState::Frozen);
+                }
+                pt(libc::PTRACE_SINGLESTEP, tid, 0, 0);
+                match wait_tid(tid, true) {
+                    Some(Stop::Sig(libc::SIGTRAP)) => (),
+                    Some(Stop::Sig(s)) if s == end_sig => {
+                        clear_all(Some(site));
+                        return Ok(BState::Done);
+                    }
+                    other => {
+                        clear_all(Some(site));
+                        return Err(format!("thread {tid} stepping over a breakpoint: {other:?}"));
+                    }
+                }
+                set_bp(via, site);
+                cont(tid, 0);
+            }
+            Some(Stop::Sig(s)) if s == end_sig => {
+                clear_all(None);
+                return Ok(BState::Done);
+            }
+            Some(Stop::Sig(s)) => cont(tid, resume_sig(s)),
+            Some(Stop::Event(_)) => cont(tid, 0),
+            Some(Stop::Exited(_)) | Some(Stop::Killed(_)) => return Ok(BState::Gone),
+            None => {
+                futex_polls = if in_futex(c.pid, tid) { futex_polls + 1 } else { 0 };
+                if futex_polls >= 4 || t0.elapsed() > std::time::Duration::from_millis(1500) {
+                    let at_marker = freeze(c, tid, end_sig);
+                    clear_all(None);
+                    return Ok(if at_marker.is_some() { BState::Done } else { BState::Blocked });
+                }
+                std::thread::sleep(std::time::Duration::from_micros(100));
+            }
+        }
+    }
+}
+
+/// Both workers stopped somewhere in their lists (or at their end markers:
+/// `a_done` / `b_done`): the one named first runs to its end marker (if it
+/// ends up waiting for something the other holds it is frozen, the other one
+/// finishes, it resumes), then the other one
+fn finish_in_order(c: &Child, a_first: bool, a_done: bool, b_done: bool) {
+    let run_to_end = |tid: i32, sig: i32| -> bool {
+        // true: reached its end marker; false: blocked and frozen
+        cont(tid, 0);
+        let mut futex_polls = 0;
+        let t0 = std::time::Instant::now();
+        loop {
+            match wait_tid(tid, false) {
+                Some(Stop::Sig(s)) if s == sig => return true,
+                Some(Stop::Sig(s)) => cont(tid, resume_sig(s)),
+                Some(Stop::Event(_)) => cont(tid, 0),
+                Some(_) => return true,
+                None => {
+                    futex_polls = if in_futex(c.pid, tid) { futex_polls + 1 } else { 0 };
+                    if futex_polls >= 4 || t0.elapsed() > std::time::Duration::from_millis(1500) {
+                        return freeze(c, tid, sig).is_some();
+                    }
+                    std::thread::sleep(std::time::Duration::from_micros(100));
+                }
+            }
+        }
+    };
+    let mut order = [(c.a, SIG_A, a_done), (c.b, SIG_B, b_done)];
+    if !a_first {
+        order.swap(0, 1);
+    }
+    let mut pending = vec![];
+    for (tid, sig, done) in order {
+        if !done && !run_to_end(tid, sig) {
+            pending.push((tid, sig));
+        }
+    }
+    for (tid, sig) in pending {
+        // blocked before: whatever it waited for is released now
+        cont(tid, 0);
+        loop {
+            match wait_tid(tid, true) {
+                Some(Stop::Sig(s)) if s == sig => break,
+                Some(Stop::Sig(s)) => cont(tid, resume_sig(s)),
+                Some(Stop::Event(_)) => cont(tid, 0),
+                _ => break,
+            }
+        }
+    }
+}
+
 /// With B frozen in the middle of its list: A runs to its end marker (if A
 /// ends up waiting for something B holds, A is frozen, B finishes, A resumes),
 /// then B runs to its end marker
@@ -1755,6 +1876,12 @@ pub struct Point {
     /// compare-and-swap operates on): B is frozen just *after* its
     /// `second`-th synchronising access to that address instead
     pub cell: u64,
+    /// third and fourth preemption (only with `second > 0`, `cell == 0`):
+    /// after B is frozen, A runs on to just before its `more[0]`-th further
+    /// synchronising instruction and is frozen again (0: A runs to its end);
+    /// B then runs on to its `more[1]`-th further one (0: to its end); then A
+    /// finishes, then B
+    pub more: [u16; 2],
 }
 
 /// One trial: A runs to `point`, is frozen, B runs its whole list, A resumes
@@ -1791,6 +1918,28 @@ pub fn trial(seed: u64, point: Point) -> (Verdict, bool) {
             run_b_to_kth(&c, point.second)
         };
         match b_run {
+            Ok(BState::Frozen) if point.cell == 0 && point.more[0] > 0 => {
+                // third preemption: A runs on a little and is frozen again
+                let a_state = match run_to_kth(&c, c.a, c.b, SIG_A, point.more[0] as usize) {
+                    Ok(s) => s,
+                    Err(e) => return (Verdict::Harness(e), false),
+                };
+                match a_state {
+                    BState::Frozen if point.more[1] > 0 => {
+                        // fourth: B runs on a little, then A finishes, then B
+                        let b_state = match run_to_kth(&c, c.b, c.a, SIG_B, point.more[1] as usize) {
+                            Ok(s) => s,
+                            Err(e) => return (Verdict::Harness(e), false),
+                        };
+                        finish_in_order(&c, true, false, matches!(b_state, BState::Done | BState::Gone));
+                    }
+                    // A frozen again (or blocked by B): B finishes first, then A
+                    BState::Frozen | BState::Blocked => finish_in_order(&c, false, false, false),
+                    BState::Done | BState::Gone => finish_in_order(&c, false, true, false),
+                }
+                let v = finish(c, true, &mut blocked);
+                return (v, false);
+            }
             Ok(BState::Frozen) => {
                 a_then_b_to_markers(&c);
                 let v = finish(c, true, &mut blocked);
@@ -1833,8 +1982,8 @@ fn skeleton_points(seq: &[u64]) -> Vec<Point> {
     let mut out = vec![];
     for (k, a) in seq.iter().enumerate() {
         let nth = seq[..k].iter().filter(|b| *b == a).count();
-        out.push(Point { addr: *a, nth, extra: 0, second: 0, cell: 0 });
-        out.push(Point { addr: *a, nth, extra: 1, second: 0, cell: 0 });
+        out.push(Point { addr: *a, nth, extra: 0, second: 0, cell: 0, more: [0, 0] });
+        out.push(Point { addr: *a, nth, extra: 1, second: 0, cell: 0, more: [0, 0] });
     }
     out
 }
@@ -1849,8 +1998,8 @@ fn conflict_points(a: &[Access], b: &[Access]) -> Vec<Point> {
     for x in a {
         let conflict = if x.write { b_any.contains(&x.key) } else { b_written.contains(&x.key) };
         if conflict {
-            out.push(Point { addr: x.rip, nth: x.nth, extra: 0, second: 0, cell: 0 });
-            out.push(Point { addr: x.rip, nth: x.nth, extra: 1, second: 0, cell: 0 });
+            out.push(Point { addr: x.rip, nth: x.nth, extra: 0, second: 0, cell: 0, more: [0, 0] });
+            out.push(Point { addr: x.rip, nth: x.nth, extra: 1, second: 0, cell: 0, more: [0, 0] });
         }
     }
     out.sort();
@@ -1993,7 +2142,16 @@ pub fn run(st: &Shared, tier: Tier, rep: &mut RunReport) {
         for p in &points {
             if ch.odds("e6_two_preemptions", 1, den) {
                 let second = 1 + ch.choose("e6_second_point", 2 * seq.len() as u32) as usize;
-                two.push(Point { second, ..*p });
+                // half of them go on to a third and (half of those) a fourth
+                // preemption a few synchronising instructions further on
+                let mut more = [0u16; 2];
+                if ch.flag("e6_third_preemption") {
+                    more[0] = 1 + ch.choose("e6_third_point", 12) as u16;
+                    if ch.flag("e6_fourth_preemption") {
+                        more[1] = 1 + ch.choose("e6_fourth_point", 12) as u16;
+                    }
+                }
+                two.push(Point { second, more, ..*p });
             }
         }
         points.extend(two);
@@ -2026,7 +2184,7 @@ pub fn run(st: &Shared, tier: Tier, rep: &mut RunReport) {
         }
         for k in picked {
             let nth = seq[..k].iter().filter(|b| **b == seq[k]).count();
-            queue.push_back((Point { addr: seq[k], nth, extra: 0, second: 0, cell: 0 }, true));
+            queue.push_back((Point { addr: seq[k], nth, extra: 0, second: 0, cell: 0, more: [0, 0] }, true));
         }
     }
     while let Some((mut p, is_scout)) = queue.pop_front() {
@@ -2074,17 +2232,23 @@ pub fn run(st: &Shared, tier: Tier, rep: &mut RunReport) {
         if p.second > 0 {
             rep.count("fault.second_thread_preempted_too", 1);
         }
+        if p.more[0] > 0 {
+            rep.count("fault.first_thread_preempted_a_second_time", 1);
+        }
+        if p.more[1] > 0 {
+            rep.count("fault.second_thread_preempted_a_second_time", 1);
+        }
         if blocked {
             rep.count("e6.second_thread_blocked_by_frozen_first", 1);
         }
         st.borrow_mut().log(
             "e6_trial",
-            ((p.nth as u64) << 24) | ((p.second as u64) << 8) | p.extra,
+            ((p.nth as u64) << 40) | ((p.more[0] as u64) << 32) | ((p.more[1] as u64) << 24) | ((p.second as u64) << 8) | p.extra,
             matches!(v, Verdict::Equal) as u64,
         );
         rep.evaluations += 1;
         rep.steps += 1;
-        rep.sigs.push(mix(mix(mix(mix(mix(seed, p.addr), p.nth as u64), p.extra), p.second as u64), p.cell));
+        rep.sigs.push(mix(mix(mix(mix(mix(mix(seed, p.addr), p.nth as u64), p.extra), p.second as u64), p.cell), ((p.more[0] as u64) << 16) | p.more[1] as u64));
         rep.checked_oracle += 1;
         let place = format!(
             "child seed {seed}: thread A frozen {} execution #{} of the instruction at {:#x}{} ({}), {}",
@@ -2106,8 +2270,13 @@ pub fn run(st: &Shared, tier: Tier, rep: &mut RunReport) {
                 )
             } else {
                 format!(
-                    "thread B then frozen just before its synchronising instruction #{}, A run to completion, then B",
-                    p.second
+                    "thread B then frozen just before its synchronising instruction #{}, {}",
+                    p.second,
+                    match p.more {
+                        [0, _] => "A run to completion, then B".to_string(),
+                        [m, 0] => format!("A run on to just before its synchronising instruction #{m} from there and frozen again, B run to completion, then A"),
+                        [m, n] => format!("A run on to just before its synchronising instruction #{m} from there and frozen again, B run on to just before its #{n} from there and frozen again, A run to completion, then B"),
+                    }
                 )
             },
         );
